@@ -9,6 +9,8 @@ from sa import callgraph
 from sa.astutil import (anorm, call_name, calls_in, dotted, norm, walk_no_nested, last_attr,
                         names_in, func_params, guards_of, enclosing_function)
 from sa.loader import AnalysisError
+from sa.canon import canon
+from checks import common
 
 MUTATORS = ('append', 'extend', 'insert', 'remove', 'pop', 'clear', 'update', 'setdefault',
             'add', 'discard', 'sort', 'reverse', 'popitem', '__setitem__')
@@ -294,6 +296,57 @@ def run(ctx):
                    'function %s.%s writes through the module-level object %s.%s%s' % (
                        m2.name, q2, mname, gname, ' (reviewed: %s)' % r3 if r3 else
                        ': state leaks from one run to the next'), m2, node)
+    # objects created in a class body (descriptors, shared defaults) are as
+    # process-wide as module-level ones: one object serves every instance of
+    # the owner class in every run
+    n_class_level = 0
+    for m2 in prog.modules.values():
+        for cls in [n for n in ast.walk(m2.tree) if isinstance(n, ast.ClassDef)]:
+            for item in cls.body:
+                val = item.value if isinstance(item, (ast.Assign, ast.AnnAssign)) else None
+                if not isinstance(val, ast.Call):
+                    continue
+                cname = (call_name(val) or '').split('.')[-1]
+                cmod = all_classes.get(cname)
+                if cmod is None:
+                    continue
+                tgt = item.targets[0] if isinstance(item, ast.Assign) else item.target
+                owner = '%s.%s.%s' % (m2.name, cls.name, norm(tgt))
+                n_class_level += 1
+                for qual, fn in cmod.funcs.items():
+                    if not qual.startswith(cname + '.') or qual.split('.')[-1] in ('__init__', '__set_name__'):
+                        continue
+                    selfname = fn.args.args[0].arg if fn.args.args else 'self'
+                    for node in walk_no_nested(fn):
+                        site = None
+                        if isinstance(node, (ast.Assign, ast.AugAssign, ast.AnnAssign)):
+                            tg = node.targets if isinstance(node, ast.Assign) else [node.target]
+                            for t in tg:
+                                base = t
+                                while isinstance(base, (ast.Subscript, ast.Attribute)):
+                                    if isinstance(base.value, ast.Name) and base.value.id == selfname:
+                                        site = node
+                                    base = base.value
+                        elif isinstance(node, ast.Call) and ((
+                                last_attr(node) in MUTATORS and
+                                norm(node.func.value).startswith(selfname + '.')) or (
+                                call_name(node) == 'setattr' and node.args
+                                and norm(node.args[0]) == selfname)):
+                            site = node
+                        if site is not None:
+                            key = '%s:%s:%s' % (owner, qual, anorm(site, fn)[:80])
+                            r2 = ctx.triage('c03_singleton_state', key)
+                            ctx.ob('C03.R1', 'class-level-state:' + key, r2 is not None,
+                                   'method %s of the class-level object %s (one object for all '
+                                   'instances and all runs) writes its own state%s' % (
+                                       qual, owner, ' (reviewed: %s)' % r2 if r2 else
+                                       ': the value computed for one run is seen by the next'),
+                                   cmod, site)
+    ctx.note('class_level_instances', n_class_level)
+    ctx.ob('C03.R1', 'class-level-instances:found', n_class_level >= 4,
+           'class-level objects of repo classes are enumerated (%d; the squared cut-off '
+           'descriptors of Parameters)' % n_class_level, prog.mod('parameters'),
+           prog.mod('parameters').tree)
     # structural conditions behind the reviewed singleton entries
     cgm = prog.mod('coupled_groups')
     ncls = 'NonCovalentlyCoupledGroups'
@@ -602,5 +655,38 @@ def run(ctx):
     ok = len(withs) == 1 and 'readlines()' in norm(withs[0])
     ctx.ob('C03.R4', 'reader:consumes-lines-only', ok,
            'the record reader takes all lines at once from either source', imod, rl_fn)
+    # ------------------------------------------------------------------ R5
+    # "whatever the working directory": with no -p given, the parameter file is
+    # the packaged one.  Either the option default is anchored on the package
+    # directory (an absolute path: joining it to anything gives itself), or the
+    # reader tries the packaged location before the name as given.
+    popts = [o for o in common.parser_options(prog) if o.get('dest') == 'parameters']
+    anchored_default = len(popts) == 1 and '__file__' in (popts[0].get('default') or '')
+    rpf = imod.func('read_parameter_file')
+    can = canon(rpf)
+    opens = sorted((c for c in calls_in(rpf, nested=False)
+                    if (call_name(c) or '').split('.')[-1] in ('open_file_for_reading', 'open')),
+                   key=lambda c: (c.lineno, c.col_offset))
+    first_path = can.text(opens[0].args[0]) if opens and opens[0].args else None
+    packaged_first = first_path is not None and '__file__' in first_path and 'alt(' not in first_path
+    ctx.ob('C03.R5', 'default-parameters:independent-of-cwd', anchored_default or packaged_first,
+           'the default parameter file does not depend on the working directory: the -p default '
+           'is anchored on the package directory (%s) or read_parameter_file opens the packaged '
+           'location first (first path opened: %s)' % (
+               popts[0].get('default') if popts else None, first_path),
+           prog.mod('lib') if not anchored_default else imod,
+           popts[0]['node'] if popts and not anchored_default else rpf)
+    ctx.ob('C03.R5', 'default-parameters:option-found', len(popts) == 1,
+           'the -p/--parameters option is declared once', prog.mod('lib'),
+           popts[0]['node'] if popts else prog.mod('lib').tree)
+    cwd_calls = []
+    for m2, q2, f2 in prog.all_funcs():
+        for c in calls_in(f2, nested=False):
+            if (call_name(c) or '') in ('os.getcwd', 'Path.cwd', 'os.chdir', 'pathlib.Path.cwd',
+                                        'os.path.abspath', 'os.path.realpath'):
+                cwd_calls.append('%s.%s: %s' % (m2.name, q2, norm(c)[:50]))
+    ctx.ob('C03.R5', 'no-cwd-reads', not cwd_calls,
+           'no function reads or changes the working directory (%s)' % cwd_calls,
+           prog.mod('lib'), prog.mod('lib').tree)
     ctx.assume('bitwise equality of two executions under float non-associativity when an '
                'accepted order varies, and platform libm differences, are not decided')
